@@ -16,9 +16,6 @@
 #include "received.h"
 #include "exit.h"
 
-void _noreturn_ badproto() { _exit(100); }
-void _noreturn_ resources() { _exit(111); }
-
 ssize_t safewrite(int fd, const void *buf, size_t len)
 {
   ssize_t r;
@@ -29,6 +26,10 @@ ssize_t safewrite(int fd, const void *buf, size_t len)
 
 char ssoutbuf[256];
 substdio ssout = SUBSTDIO_FDBUF(safewrite,1,ssoutbuf,sizeof(ssoutbuf));
+
+/* replies to messages that were already accepted must not be lost */
+void _noreturn_ badproto() { substdio_flush(&ssout); _exit(100); }
+void _noreturn_ resources() { substdio_flush(&ssout); _exit(111); }
 
 ssize_t saferead(int fd, void *buf, size_t len)
 {
